@@ -211,14 +211,13 @@ theorem c20_value_change_needs_exact_approval (env : Env ν) (st : Store ν) (op
       rw [if_pos rfl] at hs
       simp only at hi'; rw [hs] at hi'; cases hi'
       left
-      unfold addGene at hch
-      split at hch
-      · exact absurd rfl hch
-      · rename_i hc
+      rcases addGene_cases g x with ⟨h1, -, -⟩ | ⟨h1, -⟩
+      · rw [h1] at hch; exact absurd rfl hch
+      · rw [h1] at hch
         have hxn : x.name = n := by
           by_cases h : n = x.name
           · exact h.symm
-          · exfalso; apply hch; simp only; exact findGene_putGene_other _ _ h
+          · exfalso; apply hch; exact findGene_putGene_other _ _ h
         refine ⟨x, rfl, hxn, ?_⟩
         subst hxn
         cases hal : g.allow with
@@ -227,7 +226,9 @@ theorem c20_value_change_needs_exact_approval (env : Env ν) (st : Store ν) (op
           right
           cases hf : findGene g.genes x.name with
           | none => rfl
-          | some y => simp [hal, hf] at hc
+          | some y =>
+            exfalso; apply hch
+            rw [← h1, addGene_refused hal hf]; rfl
     | mutate i' n' v =>
       simp only [Op.mutator, Option.some.injEq] at hmu; subst hmu
       cases hm : mutate env st.calls g n' v .user with
@@ -347,7 +348,7 @@ theorem c20_unauthorised_calls_never_succeed (env : Env ν) (st : Store ν) (i :
       obtain ⟨-, -, -, hb⟩ := rollback_unauthorised hal hna hm
       simp [hb]
   · intro x hx
-    rw [step_add hi, addGene_refused hal hx]
+    rw [step_add hi, (addGene_refused_genes hal hx).2]
 
 /-- An operation changes at most the genome it is invoked on (no aliasing between parents, children and
     strangers); `replicate`, `new`, `express` and `get_value` change no existing genome at all. -/
@@ -914,8 +915,8 @@ these methods, or leaves the subset, breaks the corresponding theorem. -/
 theorem c20_translation_agrees_add_gene (env : Env ν) (k : Nat) (g : Genome ν) (x : Gene ν) :
     Tr.add_gene env k g x = .done (addGene g x).1 (addGene g x).2 k := by
   obtain ⟨allow, cb, rate, genes, expr, log, gen, ph⟩ := g
-  cases hf : (findGene genes x.name).isSome <;> cases allow <;>
-    simp [Tr.add_gene, addGene, hf, putGeneAt_name]
+  cases hf : findGene genes x.name <;> cases allow <;>
+    simp [Tr.add_gene, addGene, refuseMut, hf, putGeneAt_name]
 
 set_option linter.unusedSimpArgs false in
 theorem c20_translation_agrees_mutate (env : Env ν) (k : Nat) (g : Genome ν) (n : Nat) (v : ν) (r : Reason) :
@@ -971,40 +972,71 @@ theorem c20_translation_agrees_replicate_mutations (env : Env ν) (d : Nat) (mut
     simp only [Tr.replicate_mutations, mutateList, c20_translation_agrees_mutate]
     cases mutate env k c a b .replication <;> simp [ih]
 
-/-! ## Open findings (the model stays faithful to the code; `_partial` = the clause outside the trigger, `_witness` = a
-concrete counterexample)
+/-! ## Clause 2 in full: EVERY refused attempt is logged — also a refused re-add
 
-### C20-refused-readd-not-logged — clause 2 says EVERY refused attempt is logged; a refused re-add is not -/
+(finding C20-refused-readd-not-logged, repaired in /repo: `add_gene` on an existing name with mutations disabled used to
+return False without a trace; it now appends the same kind of unapproved `Mutation` record a refused `mutate` appends,
+reason "add_gene") -/
 
-/-- **Every refused attempt other than a re-add is logged as unapproved.**  A `mutate` of an existing gene, or a
-    `rollback_mutation` that has an approved mutation to roll back, that reports `False` appends exactly one entry to
-    the genome's log, flagged unapproved, and changes nothing else.
-    -- FULL (false on current tree): the same for `add_gene` of an existing name on a genome with mutations disabled
-    -- (`c20_refused_readd_not_logged_witness`). -/
-theorem c20_every_refused_attempt_logged_partial (env : Env ν) (st : Store ν) (i : Nat) (g : Genome ν) (op : Op ν)
+/-- **A refused re-add is logged as unapproved** and changes nothing else: `add_gene` of an existing name on a genome
+    whose mutations are disabled at that moment reports `False`, appends exactly one entry (this gene, current value →
+    offered value, reason "add_gene", NOT approved) and leaves genes, expression, settings and the callback counter as
+    they were — the approval callback is not consulted. -/
+theorem c20_refused_readd_logged_unapproved (env : Env ν) (st : Store ν) (i : Nat) (g : Genome ν) (x og : Gene ν)
+    (hi : st.genomes[i]? = some g) (hal : g.allow = false) (hf : findGene g.genes x.name = some og) :
+    (step env st (.add i x)).2 = .ret false ∧
+    (step env st (.add i x)).1.genomes[i]? =
+      some { g with log := g.log ++ [⟨x.name, og.value, x.value, .readd, false⟩] } ∧
+    (step env st (.add i x)).1.calls = st.calls := by
+  rw [step_add hi, addGene_refused hal hf]
+  exact ⟨rfl, by simpa [refuseMut] using getElem?_set_of_some (i := i) (a := refuseMut g og x.name x.value .readd) hi, rfl⟩
+
+/-- `add_gene` reports `False` only when it refuses: the name exists and mutations are disabled. -/
+theorem c20_add_gene_false_iff_refused (g : Genome ν) (x : Gene ν) :
+    (addGene g x).2 = false ↔ (g.allow = false ∧ (findGene g.genes x.name).isSome = true) := by
+  unfold addGene
+  cases hf : findGene g.genes x.name with
+  | none => simp
+  | some og => cases hal : g.allow <;> simp
+
+/-- **Every refused attempt is logged as unapproved.**  A `mutate` of an existing gene, a `rollback_mutation` that has
+    an approved mutation to roll back, or an `add_gene` of an existing name, that reports `False` appends exactly one
+    entry to the genome's log, flagged unapproved, and changes nothing else. -/
+theorem c20_every_refused_attempt_logged (env : Env ν) (st : Store ν) (i : Nat) (g : Genome ν) (op : Op ν)
     (hi : st.genomes[i]? = some g)
     (hop : (∃ n v, op = .mutate i n v ∧ (findGene g.genes n).isSome = true) ∨
-      (∃ n, op = .rollback i n ∧ (findGene g.genes n).isSome = true ∧ (lastApproved g.log n).isSome = true))
+      (∃ n, op = .rollback i n ∧ (findGene g.genes n).isSome = true ∧ (lastApproved g.log n).isSome = true) ∨
+      (∃ x, op = .add i x ∧ (findGene g.genes x.name).isSome = true))
     (hret : (step env st op).2 = .ret false) :
     ∃ m : Mut ν, m.approved = false ∧ (step env st op).1.genomes[i]? = some { g with log := g.log ++ [m] } := by
-  rcases hop with ⟨n, v, rfl, hn⟩ | ⟨n, rfl, hn, hl⟩
+  rcases hop with ⟨n, v, rfl, hn⟩ | ⟨n, rfl, hn, hl⟩ | ⟨x, rfl, hx⟩
   · obtain ⟨og, hf⟩ := Option.isSome_iff_exists.mp hn
     exact ⟨_, rfl, c20_every_refused_mutation_logged_unapproved env st i n v g og hi hf hret⟩
   · obtain ⟨og, hf⟩ := Option.isSome_iff_exists.mp hn
     obtain ⟨m, hm⟩ := Option.isSome_iff_exists.mp hl
     exact ⟨_, rfl, c20_refused_rollback_logged_unapproved env st i n g og m hi hf hm hret⟩
+  · obtain ⟨og, hf⟩ := Option.isSome_iff_exists.mp hx
+    have hfalse : (addGene g x).2 = false := by
+      rw [step_add hi] at hret; simpa using hret
+    have hal := ((c20_add_gene_false_iff_refused g x).mp hfalse).1
+    exact ⟨_, rfl, (c20_refused_readd_logged_unapproved env st i g x og hi hal hf).2.1⟩
 
-/-- A refused re-add leaves no trace: `add_gene` of an existing name on a genome with mutations disabled reports
-    `False` and the genome — log included — is literally what it was (genome.py:173-176 returns before anything is
-    recorded).  General statement, then the concrete instance. -/
-theorem c20_refused_readd_not_logged_witness :
-    (∀ (g : Genome Nat) (x : Gene Nat), g.allow = false → (findGene g.genes x.name).isSome = true →
-      addGene g x = (g, false)) ∧
+/-- … and the log records nothing else for `add_gene`: an accepted add (new name, or overwrite with mutations enabled)
+    leaves the log alone. -/
+theorem c20_accepted_add_logs_nothing (g : Genome ν) (x : Gene ν) (h : (addGene g x).2 = true) :
+    (addGene g x).1.log = g.log := addGene_log g x h
+
+/-- the repaired defect, concretely: a callback-gated genome, `add_gene` of the existing gene 0 with another value is
+    refused, the value stays, and the attempt is in the log, unapproved (before the repair the log stayed empty) -/
+example :
     (let g : Genome Nat := newGenome false (some 0) false [⟨0, 1, .structural, true, .normal⟩]
      let st : Store Nat := ⟨[g], 0, 0⟩
      (step (gateEnv (some .approve)) st (.add 0 ⟨0, 9, .structural, true, .normal⟩)).2 = .ret false ∧
-     (step (gateEnv (some .approve)) st (.add 0 ⟨0, 9, .structural, true, .normal⟩)).1.genomes = [g] ∧ g.log = []) :=
-  ⟨fun _ _ hal hx => addGene_refused hal hx, by decide⟩
+     (step (gateEnv (some .approve)) st (.add 0 ⟨0, 9, .structural, true, .normal⟩)).1.genomes =
+       [{ g with log := [⟨0, 1, 9, .readd, false⟩] }] ∧ g.log = []) := by decide
+
+/-! ## Open finding (the model stays faithful to the code; `_partial` = the clause outside the trigger, `_witness` = a
+concrete counterexample) -/
 
 /-! ### C20-shared-mutable-value-objects — parent, child, the log and every accessor share the value OBJECTS
 
@@ -1185,7 +1217,7 @@ example : st0.genomes[0]? = some parent ∧ CallsUnder envNo (Unauth envNo) 0 st
 example : trace envNo st0 hist =
     [.ret false, .ret false, .ret false, .child 1, .ret false, .ret true, .config [(1, 2)], .ret false] ∧
     ((run envNo st0 hist).genomes.map fun g => (table g, g.log.map fun m => (m.gene, m.new, m.approved))) =
-      [([(0, 1), (1, 2)], [(0, 7, false), (1, 3, false)]),
+      [([(0, 1), (1, 2)], [(0, 7, false), (0, 9, false), (1, 3, false)]),
        ([(0, 1), (1, 2)], [(0, 7, false), (1, 5, false), (0, 7, false)])] := by decide
 
 /-- … also with the public attributes re-assigned in between (another never-approving callback installed,
